@@ -1,4 +1,4 @@
-import FitModel.Activity
+import FitModel.ActivitySpec
 import Driver.MsgCodec
 -- @family conceal Drv.Act.hConceal
 -- @family remove Drv.Act.hRemove
@@ -28,6 +28,23 @@ def implToks (r : Req) : List String := (r.impl.splitOn " ").filter (· ≠ "")
 
 def dec32 (s : String) : Option Nat := parseDec s (2 ^ 32)
 
+/-- C20 on a conceal run, exactly the statements of FitProps/C20.lean evaluated on the output `out`:
+only position fields touched (always); under `DistOK`: records stripped exactly inside the stretches and, with
+unique position fields, nothing left of them; with sequential laps / sessions: no start/end position pointing
+into a concealed stretch. -/
+def propConceal (first last : Nat) (ms out : List Message) : String :=
+  if out.length != ms.length then "fail:length" else
+  if !(ms.zip out).all (fun p => touchB p.1 p.2) then "fail:touched-other-than-positions" else
+  if !distOKB ms then "ok" else
+  if !(ms.zip out).all (fun p => !isRecord p.1 || p.2 == hideIf (inEnd last ms) (hideIf (inStart first) p.1)) then "fail:records" else
+  if !(ms.zip out).all (fun p => !isRecord p.1 || !(uniqueNumB fnRecordPositionLat p.1 && uniqueNumB fnRecordPositionLong p.1) ||
+      !(inStart first p.1 || inEnd last ms p.1) || posFree p.2) then "fail:hides" else
+  if lapsSeqB lapPH ms && !noLeakB lapPH first last ms out then "fail:lap-position-into-concealed" else
+  if lapsSeqB sesPH ms && !noLeakB sesPH first last ms out then "fail:session-position-into-concealed" else "ok"
+
+def kfConceal (first _last : Nat) (ms : List Message) : String :=
+  if unitsDisagree lapPH first ms || unitsDisagree sesPH first ms then "KF-C20-1" else "-"
+
 def hConceal : Handler := fun r =>
   match r.args with
   | a :: b :: ms =>
@@ -35,8 +52,12 @@ def hConceal : Handler := fun r =>
     | some first, some last, some ms =>
       match r.mode with
       | .model => withCount "" (conceal first last ms)
-      | .kf => "-"
-      | _ => "n/a"
+      | .kf => kfConceal first last ms
+      | .prop =>
+        match parseCounted (implToks r) with
+        | some out => propConceal first last ms out
+        | none => "fail:unparsable"
+      | .spec => "n/a"
     | _, _, _ => if r.mode == .model then "bad-op" else if r.mode == .kf then "-" else "n/a"
   | _ => if r.mode == .model then "bad-op" else if r.mode == .kf then "-" else "n/a"
 
@@ -59,7 +80,13 @@ def hRemove : Handler := fun r =>
     match r.mode with
     | .model => withCount "" (remove o ms)
     | .kf => "-"
-    | _ => "n/a"
+    | .prop =>
+      match parseCounted (implToks r) with
+      | some out =>
+        if out == (ms.filter fun m => !selected o m).map (fun m => if o.devData then { m with devFields := [] } else m)
+        then "ok" else "fail:not-exactly-the-selected"
+      | none => "fail:unparsable"
+    | .spec => "n/a"
   | none => if r.mode == .model then "bad-op" else if r.mode == .kf then "-" else "n/a"
 
 def hex64? (s : String) : Option Nat :=
@@ -85,6 +112,34 @@ def showReduce : ReduceResult → String
   | .badArgument => "err:badarg"
   | .zeroPoints => "err:nopoints"
 
+def isSublistB : List Message → List Message → Bool
+  | [], _ => true
+  | _ :: _, [] => false
+  | a :: as, b :: bs => if a == b then isSublistB as bs else isSublistB (a :: as) bs
+
+/-- C20 on a reduce run: `Reduced` (decided by `reducedB`) for the interval methods when every record carries
+a valid key; sublist + all non-records kept for RDP -/
+def propReduce (m : Method) (ms : List Message) (impl : List String) : String :=
+  match impl with
+  | "ok" :: rest =>
+    match parseCounted rest with
+    | none => "fail:unparsable"
+    | some out =>
+      match m with
+      | .distance th =>
+        if th == 0 then "fail:accepted-zero-interval" else
+        if !keysValidB dist ms then "n/a" else
+        if reducedB dist wrapSub th none ms out then "ok" else "fail:reduced-distance"
+      | .time th =>
+        if th == 0 then "fail:accepted-zero-interval" else
+        if !keysValidB tstamp ms then "n/a" else
+        if reducedB tstamp wrapSub th none ms out then "ok" else "fail:reduced-time"
+      | .rdp _ _ =>
+        if !isSublistB out ms then "fail:not-a-sublist" else
+        if out.filter (fun m => !isRecord m) != ms.filter (fun m => !isRecord m) then "fail:non-record-dropped" else "ok"
+      | .none => "fail:accepted-without-method"
+  | _ => "n/a"
+
 def hReduce : Handler := fun r =>
   match r.args with
   | m :: ms =>
@@ -93,7 +148,8 @@ def hReduce : Handler := fun r =>
       match r.mode with
       | .model => showReduce (reduce m ms)
       | .kf => "-"
-      | _ => "n/a"
+      | .prop => propReduce m ms (implToks r)
+      | .spec => "n/a"
     | _, _ => if r.mode == .model then "bad-op" else if r.mode == .kf then "-" else "n/a"
   | [] => if r.mode == .model then "bad-op" else if r.mode == .kf then "-" else "n/a"
 
